@@ -201,8 +201,11 @@ def run(tier="quick", seed=0):
         path_b = os.path.join(tmpd, "b.aplx")
         with open(path_b, "wb") as f:
             f.write(bytes(range(1, 40)))
-        for i in range(0, len(cases) - 1, 2 if tier == "quick" else 1):
-            ta, tb = cases[i], cases[i + 1]
+        pairs2 = [(cases[i], cases[i + 1]) for i in range(0, len(cases) - 1, 2 if tier == "quick" else 1)]
+        # ... one of them with nothing to load (an application whose targets are empty is announced and ended like any other, and
+        # the applications after it are loaded all the same)
+        pairs2 += [({}, cases[0]), (cases[1], {}), ({}, cases[3]), ({(7, 7): set()}, cases[2])]
+        for ta, tb in pairs2:
             ev += 1
             del sent[:]
             try:
@@ -345,6 +348,6 @@ def run(tier="quick", seed=0):
                                  "why": "%dx%d block at (%d,%d), core %d, three chips list the core twice: %s" % (size, size, bx, by, core, why),
                                  "inputs": {"block": [bx, by, size], "core": core, "chips_naming_the_core_twice": again}})
     return {"name": "c12_regions", "evaluations": ev, "distinct_nontrivial": distinct,
-            "rule": "compress_flood_fill_regions (the request in rotating forms: coordinates as python / numpy 32- and 64-bit integers, cores as sets / lists / one-shot iterators / generators) decoded by an independent reading of the region word: all subsets of 2x2 chips x cores {1,17} at six positions (incl. level boundaries); full, one-short, full+sparse-second-core and full+outside blocks of 1, 4, 16, 64 chips square for three core pairs at two positions; seeded mixes of neighbouring chips with different core sets; checks nothing missing, nothing extra (neighbouring chips probed), nothing twice, strictly increasing (region<<32|mask), well formed; get_region_for_chip for every chip x level against the documented word; the core-select packets the real flood_fill_aplx sends (recording transport) for two/three-chip targets with cores 16/17 and seeded mixes (all fills on ONE controller): the pairs produced, in increasing order, also with two applications in one call (each followed by its own pairs); one RegionCoreTree used over time (2-4 batches of add_core, the pairs read twice after every batch): exactly the cores added so far; unions of 2-4 whole 4x4 / 16x16 blocks and single chips (often of the 4x4 block at the origin of the parent block) whose core sets come from a small pool, so that equal core masks meet at different levels; chips with all 18 cores selected (every core number in use in one node); a core named twice (lists with repeats; add_core repeated inside a completely selected 4x4 / 16x16 (thorough 64x64) block)",
+            "rule": "compress_flood_fill_regions (the request in rotating forms: coordinates as python / numpy 32- and 64-bit integers, cores as sets / lists / one-shot iterators / generators) decoded by an independent reading of the region word: all subsets of 2x2 chips x cores {1,17} at six positions (incl. level boundaries); full, one-short, full+sparse-second-core and full+outside blocks of 1, 4, 16, 64 chips square for three core pairs at two positions; seeded mixes of neighbouring chips with different core sets; checks nothing missing, nothing extra (neighbouring chips probed), nothing twice, strictly increasing (region<<32|mask), well formed; get_region_for_chip for every chip x level against the documented word; the core-select packets the real flood_fill_aplx sends (recording transport) for two/three-chip targets with cores 16/17 and seeded mixes (all fills on ONE controller): the pairs produced, in increasing order, also with two applications in one call (each followed by its own pairs; one of the two possibly with nothing to load); one RegionCoreTree used over time (2-4 batches of add_core, the pairs read twice after every batch): exactly the cores added so far; unions of 2-4 whole 4x4 / 16x16 blocks and single chips (often of the 4x4 block at the origin of the parent block) whose core sets come from a small pool, so that equal core masks meet at different levels; chips with all 18 cores selected (every core number in use in one node); a core named twice (lists with repeats; add_core repeated inside a completely selected 4x4 / 16x16 (thorough 64x64) block)",
             "bound": "structured families listed in the rule; %d seeded mixes" % (300 if tier == "quick" else 3000), "exhaustive": False,
             "label": "bounded", "samples": samples, "violations": viol, "seconds": round(time.time() - t0, 2)}
